@@ -31,3 +31,13 @@ package config
 //@   observe iget := call Get
 //@   loop 1 invariant [file-copied] rangeindex >= 0 ==> mset.count == 1 && iget.count == 1 && mset.arg2 == iget.res0
 //@   loop 2 invariant [command-line-overrides-file] rangeindex >= 0 ==> mset.count == 1 && iget.count == 1 && iget.arg0 == inputViper && mset.arg2 == iget.res0
+
+// Saving replaces the configuration file as a whole with the encoding of exactly this configuration:
+// the bytes come from one yaml.MarshalWithOptions of c and go to one os.WriteFile (which truncates).
+// What the YAML library makes of the struct, and the file system, are assumed.
+//@ func (c *Config) SaveAsYaml() (err)
+//@   property C18
+//@   observe mw := call MarshalWithOptions
+//@   observe wf := call WriteFile
+//@   modifies heap "[]*yaml.Comment", heap "[]string"   # the comment map built for the encoder
+//@   ensures [file-replaced-with-encoding] err == nil ==> mw.count == 1 && mw.res1 == nil && wf.count == 1 && wf.res0 == nil && wf.arg1 == mw.res0 && mw.arg0.val == c
